@@ -23,6 +23,10 @@ class Top:
         return "TOP"
 
 
+class KUnbound(Exception):
+    """a local variable is read on a path where no assignment reaches it (Python: UnboundLocalError)"""
+
+
 TOP = Top()
 SLICE = Poly.sym(":")
 
@@ -83,6 +87,56 @@ class Ref:
 
     def __hash__(self):
         return hash(("Ref", self.name, self.idx))
+
+
+class Ctor:
+    """the result of constructing a project class: class key + bound constructor arguments"""
+
+    def __init__(self, cls_key: str, cls_name: str, args: Dict[str, Any]):
+        self.cls_key = cls_key
+        self.cls_name = cls_name
+        self.args = args
+
+    def __repr__(self):
+        return f"{self.cls_name}({', '.join(f'{k}={v!r}' for k, v in self.args.items())})"
+
+    def __eq__(self, o):
+        return isinstance(o, Ctor) and o.cls_key == self.cls_key and list(o.args.items()) == list(self.args.items())
+
+    def __hash__(self):
+        return hash(("Ctor", self.cls_key))
+
+
+class SelfObj(Ref):
+    """`self` for class-layer evaluation: given field forms, properties / __getitem__ evaluated on demand through the class's MRO"""
+
+    def __init__(self, cls, fields: Dict[str, Any], keval: "KEval", depth_limit: int = 6):
+        super().__init__("self")
+        self.cls = cls
+        self.fields = fields
+        self.keval = keval
+        self.depth_limit = depth_limit
+        self._busy = set()
+
+    def attr(self, name: str, depth: int):
+        if name in self.fields:
+            return self.fields[name]
+        m = self.cls.lookup(name)
+        if m is not None and (m.is_property or m.is_cached) and name not in self._busy and depth < self.depth_limit:
+            self._busy.add(name)
+            try:
+                S = self.keval.summarize(m, {"self": self}, depth + 1)
+            finally:
+                self._busy.discard(name)
+            return S.ret
+        return None
+
+    def getitem(self, idx, depth: int):
+        m = self.cls.lookup("__getitem__")
+        if m is not None and depth < self.depth_limit and len(m.params) == 2:
+            S = self.keval.summarize(m, {"self": self, m.params[1]: idx}, depth + 1)
+            return S.ret
+        return None
 
 
 class ShapeOf:
@@ -236,6 +290,8 @@ class KEval:
         self.max_depth = max_depth
         self._fresh = 0
         self._allocs: Dict[str, Ref] = {}
+        self.cmp_oracle = None  # optional: (Poly, op, Poly) -> bool | None, e.g. a fixed ordering of the inputs
+        self.model_unbound = False  # raise KUnbound when a local is read before any assignment reaches it
 
     def fresh(self, base: str) -> str:
         self._fresh += 1
@@ -335,6 +391,16 @@ class KEval:
         if isinstance(st, ast.Expr):
             self.ev(st.value, env, S, f, guards, loops, depth)
             return False
+        if isinstance(st, ast.Try) and self.model_unbound:
+            try:
+                r = self.block(st.body, env, S, f, guards, loops, depth)
+                return r
+            except KUnbound:
+                for h in st.handlers:
+                    hn = unparse(h.type) if h.type is not None else ""
+                    if hn.split(".")[-1] in ("UnboundLocalError", "NameError", "Exception", ""):
+                        return self.block(h.body, env, S, f, guards, loops, depth)
+                raise
         if isinstance(st, ast.Try):
             self.block(st.body, env, S, f, guards, loops, depth)
             for h in st.handlers:
@@ -446,10 +512,51 @@ class KEval:
             env.pop("#path", None)
         return False
 
+    def _locals_of(self, f: FuncInfo):
+        loc = getattr(f, "_assigned_locals", None)
+        if loc is None:
+            loc = set()
+            for n in f.body_nodes():
+                if isinstance(n, ast.Name) and isinstance(n.ctx, ast.Store):
+                    loc.add(n.id)
+            f._assigned_locals = loc
+        return loc
+
     def const_truth(self, c: Cond):
         """truth value of a condition that is a literal constant (default-argument flags such as renormalize=False), else None"""
         if c.kind == "truth" and isinstance(c.args[0], Const) and isinstance(c.args[0].v, bool):
             return c.args[0].v
+        if c.kind == "cmp":
+            a, op, b = c.args
+            none_a, none_b = isinstance(a, Const) and a.v is None, isinstance(b, Const) and b.v is None
+            if op in ("is", "is not") and (none_a or none_b):
+                other = b if none_a else a
+                if (isinstance(other, Const) and other.v is None):
+                    return op == "is"
+                if getattr(c, "definitely_not_none", False) or isinstance(other, (tuple, Ctor)) or (isinstance(other, Const) and other.v is not None):
+                    return op == "is not"
+                return None
+
+            def cv(x):
+                if isinstance(x, Poly):
+                    return x.const_value()
+                if isinstance(x, tuple):
+                    vs = [cv(y) for y in x]
+                    return None if any(v is None for v in vs) else tuple(vs)
+                if isinstance(x, Const) and isinstance(x.v, (int, float, str, bool)) and x.v is not None:
+                    return x.v
+                return None
+            va, vb = cv(a), cv(b)
+            if self.cmp_oracle is not None and isinstance(a, Poly) and isinstance(b, Poly) and (va is None or vb is None) and op in ("==", "!=", "<", "<=", ">", ">="):
+                r = self.cmp_oracle(a, op, b)
+                if r is not None:
+                    return r
+            if va is not None and vb is not None and op in ("==", "!=", "<", "<=", ">", ">="):
+                try:
+                    return {"==": va == vb, "!=": va != vb, "<": va < vb, "<=": va <= vb, ">": va > vb, ">=": va >= vb}[op]
+                except TypeError:
+                    return None
+            return None
         if c.kind == "not":
             t = self.const_truth(c.args[0])
             return None if t is None else (not t)
@@ -640,9 +747,13 @@ class KEval:
             parts = []
             for i, op in enumerate(ops):
                 a, b = vals[i], vals[i + 1]
-                a2 = a if isinstance(a, (Const, tuple)) else self.scalar(a)
-                b2 = b if isinstance(b, (Const, tuple)) else self.scalar(b)
-                parts.append(Cond("cmp", a2, op, b2, node=e))
+                a2 = a if isinstance(a, (Const, tuple, Ctor)) else self.scalar(a)
+                b2 = b if isinstance(b, (Const, tuple, Ctor)) else self.scalar(b)
+                cc = Cond("cmp", a2, op, b2, node=e)
+                # a value that was given as a concrete form (not an unknown-kind parameter) is not None
+                if op in ("is", "is not") and ((isinstance(a, Poly) and isinstance(b, Const)) or (isinstance(b, Poly) and isinstance(a, Const))):
+                    cc.definitely_not_none = True
+                parts.append(cc)
             return parts[0] if len(parts) == 1 else Cond("and", *parts, node=e)
         v = self.ev(e, env, S, f, guards, loops, depth)
         if isinstance(v, Cond):
@@ -669,6 +780,8 @@ class KEval:
                 return env[e.id]
             if e.id in ("True", "False"):
                 return Const(e.id == "True")
+            if self.model_unbound and e.id in self._locals_of(f):
+                raise KUnbound(e.id)
             return Ref(e.id)  # global / unknown
         if isinstance(e, (ast.Tuple, ast.List)):
             return tuple(self.ev(x, env, S, f, guards, loops, depth) for x in e.elts)
@@ -734,6 +847,10 @@ class KEval:
                 if isinstance(k, Poly) and k.const_value() is not None:
                     return base.get(int(k.const_value()))
                 return TOP
+            if isinstance(base, SelfObj) and not isinstance(e.slice, (ast.Slice, ast.Tuple)):
+                v = base.getitem(self.ev(e.slice, env, S, f, guards, loops, depth), depth)
+                if v is not None:
+                    return v
             idx = self.index_of(e.slice, env, S, f, guards, loops, depth)
             if isinstance(base, Ref):
                 return base.index(idx)
@@ -768,6 +885,12 @@ class KEval:
                     return Poly.sym(e.attr)
                 return Ref("np." + e.attr)
             base = self.ev(e.value, env, S, f, guards, loops, depth)
+            if isinstance(base, SelfObj):
+                v = base.attr(e.attr, depth)
+                if v is not None:
+                    return v
+            if isinstance(base, Ctor) and e.attr in base.args:
+                return base.args[e.attr]
             if isinstance(base, Ref):
                 if e.attr == "shape":
                     return ShapeOf(base)
@@ -870,7 +993,7 @@ class KEval:
             if name in ("array", "asarray", "copy", "ascontiguousarray") and args:
                 a = args[0]
                 if isinstance(a, Ref) and name == "copy":
-                    return Ref(self.fresh(a.name + ".copy"), a.idx, True, a.shape, ("copy", a), origin=hint)
+                    return Ref(self.fresh(a.name + ".copy"), (), True, a.shape if not a.idx else None, ("copy", a), origin=hint)
                 return a
             if name == "square" and args:
                 s = self.scalar(args[0])
@@ -923,7 +1046,7 @@ class KEval:
             if isinstance(base, Ref) and base.name not in ("self", "cls"):
                 if name in ("astype", "copy", "view", "ravel", "flatten"):
                     if name == "copy":
-                        return Ref(self.fresh(base.name + ".copy"), base.idx, True, base.shape, ("copy", base), origin=hint)
+                        return Ref(self.fresh(base.name + ".copy"), (), True, base.shape if not base.idx else None, ("copy", base), origin=hint)
                     return base
                 if name in ("sum", "max", "min", "mean", "all", "any", "conj", "transpose", "reshape", "dot"):
                     sc = [self.scalar(a) for a in args]
@@ -933,8 +1056,33 @@ class KEval:
             if isinstance(base, Poly) and name in ("astype",):
                 return base
 
+        # methods of the object under class-layer evaluation
+        if isinstance(fn, ast.Attribute) and isinstance(fn.value, ast.Name) and isinstance(env.get(fn.value.id), SelfObj):
+            so = env[fn.value.id]
+            m = so.cls.lookup(fn.attr)
+            if m is not None and depth < self.max_depth and not (m.is_property or m.is_cached):
+                cargs = {"self": so}
+                for i, a in enumerate(args):
+                    if i < len(m.call_params):
+                        cargs[m.call_params[i]] = a
+                cargs.update(kw)
+                sub = self.summarize(m, cargs, depth + 1)
+                return sub.ret if sub.ret is not None else Const(None)
         # project functions: inline by substitution
         tg = self.p.resolve_call(e, f)
+        if len(tg) == 1 and tg[0].name == "__init__" and tg[0].cls is not None:
+            bind, complete = Project.bind(e, tg[0])
+            if complete:
+                params = tg[0].params[1:]
+                cargs = {}
+                for i, a in enumerate(args):
+                    if i < len(params):
+                        cargs[params[i]] = a
+                cargs.update(kw)
+                r = self.p.resolve_expr(e.func, f.module, f)
+                c = r[1] if r and r[0] == "class" else tg[0].cls
+                S.calls.append((tg[0].key, cargs, guards, e))
+                return Ctor(c.key, c.name, cargs)
         if len(tg) == 1 and depth < self.max_depth and tg[0].name != "__init__":
             callee = tg[0]
             bind, complete = Project.bind(e, callee)
